@@ -78,7 +78,7 @@ func NewRun(id, tier string, seed int64, level string) (*Run, error) {
 		return nil, err
 	}
 	r := &Run{ID: id, Tier: tier, Seed: seed, Level: level, Scratch: sc, Start: time.Now(),
-		cov: map[string]any{}, known: map[string]*knownHit{}, nontrivial: map[string]struct{}{}}
+		cov: map[string]any{}, assumptions: []string{}, known: map[string]*knownHit{}, nontrivial: map[string]struct{}{}}
 	kf := &KnownFile{}
 	b, err := os.ReadFile(filepath.Join(VerifDir, "known_findings.json"))
 	if err == nil {
